@@ -119,7 +119,7 @@ func runC02(c *core.Ctx, crashes, deep bool) {
 	relayer := func() *world.Account { return w.Relayers[ch.Int(2)] }
 	var held []*scen.Sent
 
-	steps := 70 + ch.Int(110)
+	steps := (70 + ch.Int(110)) * c.Scale
 	for i := 0; i < steps; i++ {
 		c.Step("c02")
 		switch ch.Pick([]int{22, 22, 24, 10, 16, 6}) {
